@@ -19,6 +19,8 @@ import (
 type Case struct {
 	Set   *ymodel.Set `json:"set"`
 	Order []int       `json:"order,omitempty"`
+	// StoreUses: the option that keeps the uses statements on the entries is set (the trees are the same)
+	StoreUses bool `json:"store_uses,omitempty"`
 	// Stage2 names what was added on top of the base set: "", "augment", "deviation"
 	Stage2 string `json:"stage2,omitempty"`
 }
@@ -141,7 +143,7 @@ func check(c Case) (o ev.Outcome) {
 	}
 	o.NonTrivial = uses >= 1 && maxSame >= 2 && (maxSteps >= 2 || cross)
 	var obs *schema.Observed
-	if !ev.Guard(&o, "load+process", func() { obs = schema.Load(srcs, nil) }) {
+	if !ev.Guard(&o, "load+process", func() { obs = schema.Load(srcs, func(ms *yang.Modules) { ms.ParseOptions.StoreUses = c.StoreUses }) }) {
 		for i := range o.Violations {
 			o.Violations[i].Sig = "C06/" + o.Violations[i].Sig
 		}
@@ -198,6 +200,7 @@ func gen(t *rapid.T) Case {
 	if rapid.Bool().Draw(t, "permute") {
 		c.Order = schema.Order(t, len(set.Modules))
 	}
+	c.StoreUses = rapid.IntRange(0, 3).Draw(t, "store-uses") == 0
 	return c
 }
 
